@@ -133,10 +133,17 @@ GENERIC_BAD = [None, True, False, 0, 1, -1, 5, 10 ** 400, 2.5, 2.7, -0.0, 5e-324
                'x' * 300, list(range(50)), {f'k{i:02d}': i for i in range(50)}, [[[[[[[[1]]]]]]]]]
 
 
+# python objects no JSON decoder produces, as a driver may hand them over (undecoded device replies, swapped members)
+# (scalar positions only: which python sequences a driver may hand over as an array is not for this catalogue to decide)
+DRV_ONLY_BAD = [b'12', b' 1e1\n', b'nan', b'', bytearray(b'7')]
+
+
 def bad(spec, entry='wire'):
     """boundary and ill-typed values for one position of type spec"""
     k = spec[0]
     res = list(GENERIC_BAD)
+    if entry == 'drv' and k in ('double', 'int', 'scaled', 'bool', 'enum', 'string'):
+        res += DRV_ONLY_BAD
     if k == 'double':
         lo, hi, absres, relres = T.double_limits(spec)
         for lim, sign in ((lo, -1), (hi, 1)):
